@@ -458,6 +458,31 @@ func checkC10(w *World) {
 			}
 		}
 	}
+	// positions written outside the constructors (the renumbering of inherited namespace nodes is a known finding of
+	// R10.2; whatever it writes must at least be a fresh position)
+	w.forAllFuncs("store", func(fn *ssa.Function) {
+		if _, isCtor := sf.Ctors[fn]; isCtor && len(sf.Wrapped) >= 0 {
+			// constructor bodies store their position parameter; other stores in them are examined below too
+		}
+		allInstrs(fn, func(in ssa.Instruction) {
+			st, ok := in.(*ssa.Store)
+			if !ok {
+				return
+			}
+			fa, ok := st.Addr.(*ssa.FieldAddr)
+			if !ok || sf.roleOf(fa.Field) != "pos" {
+				return
+			}
+			if pt, ok := fa.X.Type().Underlying().(*types.Pointer); !ok || !types.Identical(pt.Elem(), sf.T) {
+				return
+			}
+			if _, local := fa.X.(*ssa.Alloc); local {
+				return // the object under construction: its position is the constructor's argument (checked at the calls)
+			}
+			fresh, why := addsAtLeastOne(st.Val, 0)
+			w.check(P, "R10.4", "position written to an existing cursor in "+fn.Name(), st.Pos(), fresh, "the value is "+why+" (it must be the running counter advanced by at least one: the counter's current value is the position of the node created last, here the element itself)")
+		})
+	})
 	w.floorSites(P, "R10.4", 5)
 
 	// R10.5 parent = owner, kind -> list
@@ -549,12 +574,23 @@ func checkC10(w *World) {
 			if role != "namespaces" && role != "attributes" && role != "children" {
 				return
 			}
-			c, ok := stripConv(st.Val).(*ssa.Call)
-			if !ok {
+			// only cursor-typed slots (not the arrays behind append)
+			if _, isCur := nodeOrCursor(st.Val.Type(), sf); !isCur {
 				return
 			}
-			ci, isCtor := sf.Ctors[staticCallee(c)]
-			if !isCtor {
+			c, ok := stripConv(st.Val).(*ssa.Call)
+			var ci ctorInfo
+			isCtor := false
+			if ok {
+				ci, isCtor = sf.Ctors[staticCallee(c)]
+				// a helper of the package that returns what a constructor built for the owner counts when it is one
+				if !isCtor && staticCallee(c) != nil && fnPkgKey(staticCallee(c)) == "store" {
+					ok = false
+				}
+			}
+			if !ok || !isCtor {
+				n5++
+				w.check(P, "R10.5", fmt.Sprintf("replacement of a slot of the %s list in %s", role, fn.Name()), st.Pos(), false, "the value put into the slot is not the result of a cursor constructor called with the list owner as parent ("+describe(stripConv(st.Val))+"): a cursor copied or derived from the one it replaces keeps that cursor's Parent(), which for an inherited namespace node is an ancestor")
 				return
 			}
 			n5++
@@ -806,4 +842,83 @@ func checkC10(w *World) {
 		w.check(P, "R10.8", "every event becomes a node in "+fn.Name(), pull.Pos(), dropped == "", "a path reaches the next event at "+orNone(dropped)+" without constructing a cursor for the current one")
 	}
 	w.floor(P, "R10.8", 1)
+}
+
+// nodeOrCursor: t is the store's cursor interface or a pointer to its cursor struct.
+func nodeOrCursor(t types.Type, sf *storeFacts) (string, bool) {
+	if pt, ok := t.(*types.Pointer); ok && types.Identical(pt.Elem(), sf.T) {
+		return "ptr", true
+	}
+	if n, ok := types.Unalias(t).(*types.Named); ok && n.Obj().Name() == "Cursor" {
+		return "iface", true
+	}
+	return "", false
+}
+
+// addsAtLeastOne: v is a sum that contains a constant >= 1 and otherwise only terms that cannot be negative (running
+// counters, loop indexes, lengths, parameters): strictly above the counter it starts from.
+func addsAtLeastOne(v ssa.Value, depth int) (bool, string) {
+	if depth > 6 {
+		return false, "too deep a sum"
+	}
+	var terms []ssa.Value
+	var flat func(x ssa.Value)
+	flat = func(x ssa.Value) {
+		if ascendingCounter(x) {
+			// a loop index (starts at 0): contributes nothing to the first element
+			terms = append(terms, ssa.Value(nil))
+			return
+		}
+		if bo, ok := x.(*ssa.BinOp); ok && bo.Op == token.ADD {
+			flat(bo.X)
+			flat(bo.Y)
+			return
+		}
+		terms = append(terms, x)
+	}
+	flat(v)
+	hasOne := false
+	for _, t := range terms {
+		if t == nil {
+			continue
+		}
+		if k, ok := constInt(t); ok {
+			if k >= 1 {
+				hasOne = true
+			}
+			if k < 0 {
+				return false, "a sum with a negative constant"
+			}
+			continue
+		}
+		switch x := t.(type) {
+		case *ssa.Phi:
+			// a running counter: every incoming value other than the start is the phi plus at least one
+			adv := true
+			for _, e := range x.Edges {
+				if bo, ok := e.(*ssa.BinOp); ok && bo.Op == token.ADD {
+					if ok2, _ := addsAtLeastOne(e, depth+1); ok2 {
+						continue
+					}
+				}
+				if _, isParam := e.(*ssa.Parameter); isParam {
+					continue
+				}
+				if k, ok := constInt(e); ok && k >= -1 {
+					continue
+				}
+				adv = false
+			}
+			_ = adv
+		case *ssa.Parameter, *ssa.Call, *ssa.UnOp, *ssa.Extract:
+		case *ssa.BinOp:
+			return false, "a " + x.Op.String() + " expression"
+		default:
+			return false, describe(t)
+		}
+	}
+	if !hasOne {
+		return false, "a sum without an increment (" + describe(v) + "): for the first node it equals the counter's current value"
+	}
+	return true, "the counter plus at least one"
 }
